@@ -82,9 +82,9 @@ WF/OrLaterBase.vos WF/OrLaterBase.vok WF/OrLaterBase.required_vos: WF/OrLaterBas
 Props/Shipped.vo Props/Shipped.glob Props/Shipped.v.beautified Props/Shipped.required_vo: Props/Shipped.v Model/Api.vo Spec/WF.vo Spec/MatchSpec.vo Gen/Tables.vo Proofs/NodeInv.vo Proofs/WFSound.vo WF/Words.vo WF/NoKeywordPrefix.vo WF/FoldUnique.vo WF/OrLaterBase.vo
 Props/Shipped.vio: Props/Shipped.v Model/Api.vio Spec/WF.vio Spec/MatchSpec.vio Gen/Tables.vio Proofs/NodeInv.vio Proofs/WFSound.vio WF/Words.vio WF/NoKeywordPrefix.vio WF/FoldUnique.vio WF/OrLaterBase.vio
 Props/Shipped.vos Props/Shipped.vok Props/Shipped.required_vos: Props/Shipped.v Model/Api.vos Spec/WF.vos Spec/MatchSpec.vos Gen/Tables.vos Proofs/NodeInv.vos Proofs/WFSound.vos WF/Words.vos WF/NoKeywordPrefix.vos WF/FoldUnique.vos WF/OrLaterBase.vos
-Props/C01.vo Props/C01.glob Props/C01.v.beautified Props/C01.required_vo: Props/C01.v Props/Shipped.vo Spec/Grammar.vo Spec/Eval.vo Model/Expand.vo Proofs/ParseGrammar.vo Proofs/Sat.vo Proofs/Laws.vo Proofs/ApiFacts.vo Proofs/ExpandProof.vo
-Props/C01.vio: Props/C01.v Props/Shipped.vio Spec/Grammar.vio Spec/Eval.vio Model/Expand.vio Proofs/ParseGrammar.vio Proofs/Sat.vio Proofs/Laws.vio Proofs/ApiFacts.vio Proofs/ExpandProof.vio
-Props/C01.vos Props/C01.vok Props/C01.required_vos: Props/C01.v Props/Shipped.vos Spec/Grammar.vos Spec/Eval.vos Model/Expand.vos Proofs/ParseGrammar.vos Proofs/Sat.vos Proofs/Laws.vos Proofs/ApiFacts.vos Proofs/ExpandProof.vos
+Props/C01.vo Props/C01.glob Props/C01.v.beautified Props/C01.required_vo: Props/C01.v Props/Shipped.vo Spec/Grammar.vo Spec/Eval.vo Model/Expand.vo Proofs/ParseGrammar.vo Proofs/Sat.vo Proofs/Laws.vo Proofs/ApiFacts.vo Proofs/ExpandProof.vo Model/ParseStack.vo Proofs/ParseStack.vo
+Props/C01.vio: Props/C01.v Props/Shipped.vio Spec/Grammar.vio Spec/Eval.vio Model/Expand.vio Proofs/ParseGrammar.vio Proofs/Sat.vio Proofs/Laws.vio Proofs/ApiFacts.vio Proofs/ExpandProof.vio Model/ParseStack.vio Proofs/ParseStack.vio
+Props/C01.vos Props/C01.vok Props/C01.required_vos: Props/C01.v Props/Shipped.vos Spec/Grammar.vos Spec/Eval.vos Model/Expand.vos Proofs/ParseGrammar.vos Proofs/Sat.vos Proofs/Laws.vos Proofs/ApiFacts.vos Proofs/ExpandProof.vos Model/ParseStack.vos Proofs/ParseStack.vos
 Props/C02.vo Props/C02.glob Props/C02.v.beautified Props/C02.required_vo: Props/C02.v Props/Shipped.vo Proofs/MatchProof.vo Proofs/Sat.vo Proofs/ApiFacts.vo
 Props/C02.vio: Props/C02.v Props/Shipped.vio Proofs/MatchProof.vio Proofs/Sat.vio Proofs/ApiFacts.vio
 Props/C02.vos Props/C02.vok Props/C02.required_vos: Props/C02.v Props/Shipped.vos Proofs/MatchProof.vos Proofs/Sat.vos Proofs/ApiFacts.vos
